@@ -361,6 +361,96 @@ def l4_case(args):
     return args[:5], errs
 
 
+# ------------------------------------------------------------------------------------------------ L5 MAPQ filter matrix
+MAPQS = (0, 1, 4, 5, 6, 9, 10, 11, 60)
+MAPQ_OPTS = [(), ("--min_mapq", "5"), ("--min_mapq", "10"), ("--inconsistent_mapq_cutoff", "0"), ("--inconsistent_mapq_cutoff", "10"),
+             ("--simple_alignments_mapq_cutoff", "0"), ("--simple_alignments_mapq_cutoff", "10"),
+             ("--min_mapq", "5", "--inconsistent_mapq_cutoff", "10"), ("--min_mapq", "10", "--simple_alignments_mapq_cutoff", "5")]
+
+
+def mapq_world():
+    from vlib import worlds as W, syn
+    w = {"chroms": {"chr1": 6000, "chr2": 9000}, "genes": [], "reads": [], "sites": []}
+    ex = [[1001, 1300], [1601, 1900], [2201, 2600]]
+    w["genes"].append({"id": "G1", "chr": "chr1", "strand": "+", "transcripts": [{"id": "T1", "exons": ex}]})
+    syn.plant_for_transcripts(w)
+    W.add_sites_for_blocks(w, "chr1", [ex[0], ex[2]], "+")
+    i3 = [[1001, 1300], [1601, 1900], [2201, 2600]]
+    W.add_sites_for_blocks(w, "chr2", i3, "+")
+    W.dedup_sites(w)
+    reads = []
+    for q in MAPQS:
+        reads.append(W.read_of("cons_%d" % q, "chr1", ex, mapq=q))                                   # consistent, 3 exons
+        reads.append(W.read_of("incons_%d" % q, "chr1", [ex[0], ex[2]], mapq=q))                     # exon skipping: inconsistent, 2 exons
+        reads.append(W.read_of("inter1_%d" % q, "chr2", [[5001, 5400]], polya=False, mapq=q))        # unannotated region, 1 exon
+        reads.append(W.read_of("inter2_%d" % q, "chr2", [[6001, 6300], [6601, 6900]], polya=False, mapq=q))
+        reads.append(W.read_of("inter3_%d" % q, "chr2", i3, mapq=q))
+    w["reads"] = reads
+    return w
+
+
+def mapq_expected(opts, annotated):
+    """names of the reads that pass the documented filters (docs/cmd.md: --min_mapq, --inconsistent_mapq_cutoff (annotation given,
+       default 5), --simple_alignments_mapq_cutoff (1-2 exon alignments where there is no annotation, default 1))"""
+    o = dict(zip(opts[0::2], opts[1::2]))
+    mn = int(o.get("--min_mapq", 0))
+    inc = int(o.get("--inconsistent_mapq_cutoff", 5))
+    simple = int(o.get("--simple_alignments_mapq_cutoff", 1))
+    exp = set()
+    for q in MAPQS:
+        for kind, nex, genic in (("cons", 3, True), ("incons", 2, True), ("inter1", 1, False), ("inter2", 2, False), ("inter3", 3, False)):
+            if q < mn:
+                continue
+            if genic and annotated:
+                if kind == "incons" and q < inc:
+                    continue
+            else:
+                if nex <= 2 and q < simple:
+                    continue
+            exp.add("%s_%d" % (kind, q))
+    return exp
+
+
+def l5_case(args):
+    oi, annotated, mode, scratch = args
+    from vlib import syn, run
+    opts = MAPQ_OPTS[oi]
+    w = mapq_world()
+    d = os.path.join(scratch, "c05q_%d_%d_%s" % (oi, annotated, mode))
+    shutil.rmtree(d, ignore_errors=True)
+    paths = syn.materialise(w, d)
+    out = os.path.join(d, "out")
+    extra = ["--no_model_construction"] + list(opts) + (["--high_memory"] if mode == "high_memory" else [])
+    rc = run.run_isoquant(run.base_argv(paths, out, genedb=bool(annotated), extra=extra), paths["home"], os.path.join(d, "o.txt"))
+    errs = []
+    if rc != 0:
+        errs.append(("run-failed", "exit %d: %s" % (rc, open(os.path.join(d, "o.txt")).read()[-300:])))
+        shutil.rmtree(d, ignore_errors=True)
+        return args[:3], errs
+    exp = mapq_expected(opts, annotated)
+    try:
+        names = {"bed": set(b["name"] for b in run.parse_bed(run.find(out, "OUT", ".corrected_reads.bed")))}
+        if annotated:
+            names["tsv"] = set(r["read_id"] for r in run.parse_assignments(run.find(out, "OUT", ".read_assignments.tsv")))
+    except Exception as e:  # noqa
+        errs.append(("output-unreadable", repr(e)))
+        names = {}
+    for what, got in names.items():
+        lost = sorted(exp - got)
+        extra_ = sorted(got - exp)
+        if lost:
+            errs.append(("filtered-although-passing:%s:%s" % (lost[0].split("_")[0], what), "reads %s pass the documented MAPQ filters but are missing from %s" % (lost[:6], what)))
+        if extra_:
+            errs.append(("reported-although-filtered:%s:%s" % (extra_[0].split("_")[0], what), "reads %s are below a documented MAPQ cut-off but reported in %s" % (extra_[:6], what)))
+    log = open(os.path.join(out, "isoquant.log")).read()
+    m = re.search(r"overall alignment statistics:(.*?)(?:Finishing|No reads)", log, re.S)
+    stats = dict((k, int(v)) for k, v in re.findall(r" - INFO - (\w+): (\d+)", m.group(1))) if m else {}
+    if stats.get("primary") != len(w["reads"]):
+        errs.append(("log-stat:primary", "log says primary: %s, the BAM has %d primary records" % (stats.get("primary"), len(w["reads"]))))
+    shutil.rmtree(d, ignore_errors=True)
+    return args[:3], errs
+
+
 def placement_jobs(ctx):
     quick = ctx.tier == "quick"
     subsets = ["".join(c) for n in range(len(PLACE_KINDS) + 1) for c in itertools.combinations(PLACE_KINDS, n)]
@@ -416,6 +506,13 @@ def run(ctx):
     ctx.note("L4 record placement: %d pipeline runs (every subset of {reported primary, supplementary, filtered secondary, filtered MAPQ-0 primary} "
              "on unannotated chromosomes)" % len(pj))
     jobs = jobs + pj
+    qj = [(oi, annotated, mode, ctx.scratch) for oi in range(len(MAPQ_OPTS)) for annotated in (1, 0)
+          for mode in (("default",) if quick else ("default", "high_memory"))]
+    for key, errs in core.pmap(l5_case, qj):
+        for kk, msg in errs:
+            ctx.violation("l5:%s" % kk, "options %s annotated=%d mode %s: %s" % (list(MAPQ_OPTS[key[0]]), key[1], key[2], msg), {"mapq_case": list(key)})
+    ctx.note("L5 MAPQ filter matrix: %d pipeline runs (5 alignment kinds x 9 MAPQ values in each, %d option sets)" % (len(qj), len(MAPQ_OPTS)))
+    jobs = jobs + qj
     ctx.coverage.update({
         "evaluations": total + len(jobs), "distinct_nontrivial": nontriv + len(jobs),
         "rule": "L1 case = (cluster of alignments, constants set); non-trivial = cluster actually split into >=2 regions; L3 case = pipeline "
@@ -432,6 +529,9 @@ def replay(ctx, case):
     if "cluster" in case:
         n, nt, bad = l1_chunk(([[tuple(x) for x in case["cluster"]]], case["consts"]))
         return bad[0][2] if bad else None
+    if "mapq_case" in case:
+        key, errs = l5_case(tuple(case["mapq_case"]) + (ctx.scratch,))
+        return errs[0][1] if errs else None
     if "placement" in case:
         key, errs = l4_case(tuple(case["placement"]) + (ctx.scratch,))
         return errs[0][1] if errs else None
